@@ -40,13 +40,18 @@ impl EdgeLocate for OpenEdge {
         &self,
         _section: &Curve2,
         stations: Vec<InscribedCircle>,
-        _front: bool,
+        front: bool,
         _af_tol: f64,
     ) -> Result<(Option<AirfoilEdge>, Vec<InscribedCircle>)> {
-        Ok((
-            Some(AirfoilEdge::open(stations.last().unwrap().circle.center)),
-            stations,
-        ))
+        // The stations run from the leading to the trailing edge, so the leading edge is at the
+        // first station and the trailing edge at the last one
+        let end = if front {
+            stations.first()
+        } else {
+            stations.last()
+        };
+        let point = end.ok_or("No stations to take the open edge from")?.circle.center;
+        Ok((Some(AirfoilEdge::open(point)), stations))
     }
 }
 
